@@ -1,31 +1,48 @@
 /-
   C09 — packet headers (Go package `protocol`) round-trip; bit-fields stay in lane; payload demux is right.
 
-  1. LANE theorems (`lane_*`): for all in-range field values, unpacking the packed byte/word gives back every field
-     exactly, so no sub-byte field disturbs its neighbours: VLAN PCP/DEI/VID, IPv4 version/IHL, DSCP/ECN,
-     flags/fragment offset, IPv6 version/class/flow label (spread over the first four bytes), TCP data offset and
-     code bits, IPv6 fragment offset/more flag, IGMPv3 S flag/QRV.  The range hypotheses are necessary
-     (`lane_*_needs_range`: an out-of-range field does spill into its neighbour, except where the Go code masks).
-  2. ROUND-TRIP theorems (`*_roundtrip`): for a well-formed value `v` of a header kind (`K.WFv v`, an explicit
-     decidable predicate: every numeric field within its bit width, byte-string fields of the length the wire format
-     gives them, the length fields consistent with the parts present) `MarshalBinary` succeeds with bytes `bs` and
-     leaves `v` unchanged, `Len()` reports exactly `bs.length`, and `UnmarshalBinary` on a fresh `new(K)` given `bs`
-     — with arbitrary spare capacity behind it, and for the fixed-size kinds also with arbitrary trailing bytes
-     inside the slice — gives back exactly `v` (hence re-encoding reproduces `bs`).
-     Kinds: VLAN, ARP, ICMP, UDP, TCP, FragmentHeader, Option, IGMPv1or2, RoutingHeader, HopByHopHeader, IGMPv3Query.
-  3. DEMUX theorems (`*_demux`): whenever `Ethernet/IPv4/IPv6.UnmarshalBinary` succeeds, the kind of the decoded
-     payload is the one selected by the ethertype found after an optional VLAN tag / by the IPv4 protocol number /
-     by the last next-header value of the IPv6 extension-header chain.
+  1. LANE theorems (`lane_*`): for ALL in-range field values, unpacking the packed byte/word gives back every field
+     exactly, so no sub-byte field disturbs its neighbours: VLAN PCP/DEI/VID (`lane_vlan_tci`), IPv4 version/IHL,
+     DSCP/ECN, flags/fragment offset, IPv6 version/class/flow label (spread over the first four bytes), TCP data offset
+     and code bits, IPv6 fragment offset/more flag, IGMPv3 S flag/QRV.  The range hypotheses are necessary
+     (`lane_*_needs_range`: the Go encoders add/shift without masking, so an out-of-range field spills into its
+     neighbour; only TCP masks, `lane_tcp_masks`).  No lane identity is false for in-range values.
+
+  2. ROUND-TRIP theorems (`*_roundtrip`).  For a well-formed value `v` of a header kind — `K.WFv v`, an explicit decidable
+     predicate: every numeric field within its bit width, byte-string fields of the length the wire format gives them,
+     the length/count fields consistent with the parts present, fields that are not on the wire at their zero value —
+     `RoundTrip k v` says: `MarshalBinary` succeeds with bytes `bs` and leaves `v` unchanged, `Len()` reports exactly
+     `bs.length`, and `UnmarshalBinary` on a fresh `new(K)` given `bs` (with arbitrary spare capacity behind the slice)
+     gives back exactly `v`; hence re-encoding reproduces `bs` (`RoundTrip.reencode`).  `RoundTripPrefix` (fixed-size
+     kinds) adds: arbitrary trailing bytes inside the slice are ignored, i.e. exactly `Len()` bytes are consumed.
+       leaf kinds   VLAN, ARP, ICMP, UDP, TCP, FragmentHeader, Option, IGMPv1or2, RoutingHeader, u.Buffer
+       lists        HopByHopHeader (options), IGMPv3Query (sources), IGMPv3GroupRecord (sources + aux words),
+                    IGMPv3MembershipReport (group records)
+       containers   IPv4 (options; ICMP / UDP / opaque payload), Ethernet (untagged or 802.1Q-tagged; IPv4 / ARP / opaque
+                    payload), IPv6 without extension headers (`ipv6_noext_roundtrip_partial`; ICMPv6 / UDP / opaque payload)
+     DEFECT witness `ethernet_priority_tag_lost`: the Ethernet encoder emits the 802.1Q tag only when the VLAN id is
+     non-zero, so a priority-tagged frame (id 0, priority 5 — every field in range) is encoded without its tag and does
+     not round-trip.  Not proved: IPv6 with a chain of extension headers (each header kind round-trips on its own and the
+     decoder's walk is characterised in part 3, but encoder walk ∘ decoder walk is not composed here).
+
+  3. DEMUX theorems (`ethernet_demux`, `ipv4_demux`, `ipv6_demux`): whenever `Ethernet/IPv4/IPv6.UnmarshalBinary`
+     succeeds, the payload was decoded from the bytes behind the header by the decoder — and therefore has the kind — that
+     the ethertype found after an optional 0x8100 tag / the IPv4 protocol number / the last next-header value of the IPv6
+     extension-header chain (`Chain`: hop-by-hop 0, routing 43, fragment 44 are followed) selects.
+
+  Helper lemmas: `OFV.Lemmas.LaneBits`, `OFV.Lemmas.RoundTripCore`, `OFV.Lemmas.RoundTripProto`.
 -/
 import OFV.Model.All
 import OFV.Lemmas.Size
 import OFV.Lemmas.Read
 import OFV.Lemmas.LaneBits
 import OFV.Lemmas.RoundTripCore
+import OFV.Lemmas.RoundTripProto
 namespace OFV.Props.C09
 open OFV OFV.Go OFV.Model OFV.Lemmas.Lane OFV.Lemmas.RT
 
 /-! ## 1. Lane theorems -/
+
 
 /-- VLAN tag control word: priority (3 bits), DEI (1 bit) and VLAN id (12 bits) each come back exactly. -/
 theorem lane_vlan_tci (pcp dei : UInt8) (vid : UInt16) (hp : pcp.toNat < 8) (hd : dei.toNat < 2)
@@ -201,6 +218,7 @@ theorem lane_tcp_masks (hl code : UInt8) :
 
 /-! ## 2. Round-trip theorems -/
 
+
 /-- `RoundTrip k v`: `MarshalBinary` of `v` succeeds with some bytes `bs` and does not modify `v`; `Len()` reports
     exactly `bs.length`; and decoding `bs` into a fresh value — whatever spare capacity lies behind the slice — gives
     back exactly `v` (so re-encoding reproduces `bs`, and the reported size equals the bytes consumed). -/
@@ -230,6 +248,7 @@ theorem RoundTrip.reencode {k : KindOps} {v : V} (h : RoundTrip k v) :
   cases hw
   exact h1
 
+/-- the `Len / MarshalBinary / UnmarshalBinary / new(T)` quadruples of the leaf kinds (as registered in `kindsProto`) -/
 def kVLAN : KindOps := ⟨PVLAN.lenM, PVLAN.marshalM, PVLAN.unmarshal, PVLAN.zero⟩
 def kARP : KindOps := ⟨PARP.lenM, PARP.marshalM, PARP.unmarshal, PARP.zero⟩
 def kICMP : KindOps := ⟨PICMP.lenM, PICMP.marshalM, PICMP.unmarshal, PICMP.zero⟩
@@ -241,6 +260,7 @@ def kIGMPv1or2 : KindOps := ⟨PIGMPv1or2.lenM, PIGMPv1or2.marshalM, PIGMPv1or2.
 def kRouting : KindOps := ⟨PRouting.lenM, PRouting.marshalM, PRouting.unmarshal, PRouting.zero⟩
 
 /-! ### VLAN -/
+
 
 /-- well-formed VLAN tag: TPID 16 bits, priority 3 bits, DEI 1 bit, id 12 bits -/
 def VLAN.WFv : V → Prop
@@ -276,6 +296,7 @@ example : VLAN.WFv (.obj "p.VLAN" [.num 0x8100, .num 5, .num 1, .num 0xabc]) := 
 
 /-! ### ARP -/
 
+
 /-- well-formed ARP packet (Ethernet/IPv4, the only shape the decoder produces): hardware length 6, protocol length 4,
     6-byte hardware and 4-byte protocol addresses -/
 def ARP.WFv : V → Prop
@@ -284,10 +305,6 @@ def ARP.WFv : V → Prop
       hs.length = 6 ∧ ips.length = 4 ∧ hd.length = 6 ∧ ipd.length = 4
   | _ => False
 instance : DecidablePred ARP.WFv := fun v => by unfold ARP.WFv; split <;> infer_instance
-
-theorem arp_len (ht pt op : Nat) : (Gen.protocol.ARP.Len
-      { HWType := n16 ht, ProtoType := n16 pt, HWLength := n8 6, ProtoLength := n8 4, Operation := n16 op }) = 28 := by
-  simp only [Gen.protocol.ARP.Len]; rfl
 
 /-- a well-formed ARP packet round-trips through its 28 bytes; trailing bytes are ignored -/
 theorem arp_roundtrip (v : V) (h : ARP.WFv v) : RoundTripPrefix kARP v := by
@@ -327,6 +344,7 @@ example : ARP.WFv (.obj "p.ARP" [.num 1, .num 0x800, .num 6, .num 4, .num 2, .by
 
 /-! ### ICMP -/
 
+
 /-- well-formed ICMP message: type/code 8 bits, checksum 16 bits, total size fits the 16-bit `Len()` -/
 def ICMP.WFv : V → Prop
   | .obj "p.ICMP" [.num ty, .num code, .num cs, .bytes d] => ty < 256 ∧ code < 256 ∧ cs < 65536 ∧ 4 + d.length < 65536
@@ -356,6 +374,7 @@ theorem icmp_roundtrip (v : V) (h : ICMP.WFv v) : RoundTrip kICMP v := by
 example : ICMP.WFv (.obj "p.ICMP" [.num 8, .num 0, .num 0xf7ff, .bytes [1, 2, 3]]) := by decide
 
 /-! ### UDP -/
+
 
 /-- well-formed UDP datagram: ports, length and checksum 16 bits, total size fits the 16-bit `Len()` -/
 def UDP.WFv : V → Prop
@@ -387,6 +406,7 @@ theorem udp_roundtrip (v : V) (h : UDP.WFv v) : RoundTrip kUDP v := by
 example : UDP.WFv (.obj "p.UDP" [.num 68, .num 67, .num 11, .num 0, .bytes [1, 2, 3]]) := by decide
 
 /-! ### TCP -/
+
 
 /-- well-formed TCP segment: ports/window/checksum/urgent 16 bits, sequence numbers 32 bits, data offset 4 bits,
     code bits 6 bits, total size fits the 16-bit `Len()` -/
@@ -429,6 +449,7 @@ example : TCP.WFv (.obj "p.TCP" [.num 80, .num 4242, .num 0xdeadbeef, .num 1, .n
     .num 0, .bytes [1, 2, 3]]) := by decide
 
 /-! ### IPv6 fragment header -/
+
 
 /-- well-formed fragment header: next header / reserved 8 bits, offset 13 bits, more-flag 0/1, identification 32 bits -/
 def Fragment.WFv : V → Prop
@@ -475,17 +496,12 @@ example : Fragment.WFv (.obj "p.FragmentHeader" [.num 17, .num 0, .num 0x1abc, .
 
 /-! ### IPv6 option (TLV inside a hop-by-hop header) -/
 
+
 /-- well-formed option: type/length 8 bits, the data is exactly `Length` bytes -/
 def Option.WFv : V → Prop
   | .obj "p.Option" [.num ty, .num ln, .bytes d] => ty < 256 ∧ ln < 256 ∧ d.length = ln
   | _ => False
 instance : DecidablePred Option.WFv := fun v => by unfold Option.WFv; split <;> infer_instance
-
-theorem option_len (ty ln : Nat) (h : ln < 256) :
-    (Gen.protocol.Option.Len { Type_ := n8 ty, Length := n8 ln }).toNat = ln + 2 := by
-  simp only [Gen.protocol.Option.Len, UInt16.toNat_add, UInt64.toNat_toUInt16, UInt8.toNat_toUInt64, n8_toNat _ h]
-  have : (2 : UInt16).toNat = 2 := rfl
-  rw [this]; omega
 
 /-- a well-formed option round-trips through its `2 + Length` bytes; trailing bytes are ignored -/
 theorem option_roundtrip (v : V) (h : Option.WFv v) : RoundTripPrefix kOption v := by
@@ -517,6 +533,7 @@ theorem option_roundtrip (v : V) (h : Option.WFv v) : RoundTripPrefix kOption v 
 example : Option.WFv (.obj "p.Option" [.num 5, .num 2, .bytes [0, 0]]) := by decide
 
 /-! ### IGMP v1/v2 -/
+
 
 /-- well-formed IGMPv1/v2 message: type / max response time 8 bits, checksum 16 bits, 4-byte group address -/
 def IGMPv1or2.WFv : V → Prop
@@ -553,20 +570,13 @@ example : IGMPv1or2.WFv (.obj "p.IGMPv1or2" [.num 0x16, .num 100, .num 0xabcd, .
 
 /-! ### IPv6 routing header -/
 
+
 /-- well-formed routing header: four 8-bit fields and a data buffer that fills the header up to `8·(HEL+1)` bytes -/
 def Routing.WFv : V → Prop
   | .obj "p.RoutingHeader" [.num nh, .num hel, .num rt, .num sl, .obj "u.Buffer" [.bytes c]] =>
     nh < 256 ∧ hel < 256 ∧ rt < 256 ∧ sl < 256 ∧ c.length + 4 = 8 * (hel + 1)
   | _ => False
 instance : DecidablePred Routing.WFv := fun v => by unfold Routing.WFv; split <;> infer_instance
-
-/-- `8 * (uint16(HEL) + 1)` does not wrap -/
-theorem ext_len (hel : Nat) (h : hel < 256) :
-    ((8 : UInt16) * (((n8 hel).toUInt64).toUInt16 + (1 : UInt16))).toNat = 8 * (hel + 1) := by
-  simp only [UInt16.toNat_mul, UInt16.toNat_add, UInt64.toNat_toUInt16, UInt8.toNat_toUInt64, n8_toNat _ h]
-  have h1 : (1 : UInt16).toNat = 1 := rfl
-  have h8 : (8 : UInt16).toNat = 8 := rfl
-  rw [h1, h8]; omega
 
 /-- a well-formed routing header round-trips through its `8·(HEL+1)` bytes; trailing bytes are ignored -/
 theorem routing_roundtrip (v : V) (h : Routing.WFv v) : RoundTripPrefix kRouting v := by
@@ -608,11 +618,13 @@ example : Routing.WFv (.obj "p.RoutingHeader" [.num 6, .num 0, .num 0, .num 1, .
   decide
 
 /-! ### IPv6 hop-by-hop header (a list of options) -/
+
 /-- encoded size of an option value: `2 + Length` -/
 def optSize : V → Nat
   | .obj "p.Option" [_, .num ln, _] => ln + 2
   | _ => 0
 
+/-- the reported size of a well-formed option is `2 + Length` (at least 2, so the option loop advances) -/
 theorem option_len_size (o : V) (h : Option.WFv o) : ∀ l, POption.len o = .ok l → l.toNat = optSize o ∧ 2 ≤ l.toNat := by
   unfold Option.WFv at h
   split at h
@@ -644,6 +656,8 @@ def hbhBody (data : Slice) (s : PHopByHop.St) : R PHopByHop.St := do
   let ol ← POption.len o
   pure { n := s.n + ol.toNat, opts := s.opts ++ [o] }
 
+/-- a list of well-formed options: the encoder's pieces are the concatenation `W` of their encodings, and the
+    decoder's option loop started at the beginning of `W` stops at its end having appended exactly these options -/
 theorem hbh_opts (os : List V) (hwf : ∀ o ∈ os, Option.WFv o) :
     ∃ W : Bytes, W.length = (os.map optSize).sum ∧ os.length ≤ W.length ∧
       (∃ ps, PHopByHop.optPieces os = .ok ps ∧ piecesBytes ps = W ∧ piecesLen ps = W.length ∧ ∀ p ∈ ps, p.Tight) ∧
@@ -701,6 +715,7 @@ theorem hbh_opts (os : List V) (hwf : ∀ o ∈ os, Option.WFv o) :
       rw [this]
       simp
 
+/-- `HopByHopHeader` operations -/
 def kHopByHop : KindOps := ⟨PHopByHop.lenM, PHopByHop.marshalM, PHopByHop.unmarshal, PHopByHop.zero⟩
 
 /-- well-formed hop-by-hop header: 8-bit fields, well-formed options that fill the header exactly up to `8·(HEL+1)` -/
@@ -710,6 +725,8 @@ def HopByHop.WFv : V → Prop
   | _ => False
 instance : DecidablePred HopByHop.WFv := fun v => by unfold HopByHop.WFv; split <;> infer_instance
 
+/-- a well-formed hop-by-hop header (any number of options) round-trips through its `8·(HEL+1)` bytes; trailing
+    bytes are ignored -/
 theorem hopbyhop_roundtrip (v : V) (h : HopByHop.WFv v) : RoundTripPrefix kHopByHop v := by
   unfold HopByHop.WFv at h
   split at h
@@ -762,76 +779,6 @@ example : HopByHop.WFv (.obj "p.HopByHopHeader" [.num 58, .num 1, .list [.obj "p
     .obj "p.Option" [.num 1, .num 8, .bytes [0, 0, 0, 0, 0, 0, 0, 0]]]]) := by decide
 
 /-! ### IGMPv3 query (S/QRV lane, list of source addresses) -/
-/-- a 4-byte address value -/
-def isIP4 : V → Prop
-  | .bytes b => b.length = 4
-  | _ => False
-instance : DecidablePred isIP4 := fun v => by unfold isIP4; split <;> infer_instance
-
-theorem ip4_list (srcs : List V) (h : ∀ x ∈ srcs, isIP4 x) :
-    ∃ ips : List Bytes, srcs = ips.map V.bytes ∧ (∀ b ∈ ips, b.length = 4) ∧ pIpList srcs = .ok ips := by
-  induction srcs with
-  | nil => exact ⟨[], rfl, by simp, rfl⟩
-  | cons x xs ih =>
-    obtain ⟨ips, h1, h2, h3⟩ := ih (fun y hy => h y (by simp [hy]))
-    have hx := h x (by simp)
-    unfold isIP4 at hx
-    split at hx
-    · rename_i b
-      refine ⟨b :: ips, by simp [h1], ?_, ?_⟩
-      · intro c hc
-        simp at hc
-        rcases hc with rfl | hc
-        · exact hx
-        · exact h2 c hc
-      · simp [pIpList, pBytesOf, h3]
-    · exact hx.elim
-
-theorem ip4_flatten_length (ips : List Bytes) (h : ∀ b ∈ ips, b.length = 4) : ips.flatten.length = 4 * ips.length := by
-  induction ips with
-  | nil => rfl
-  | cons b bs ih =>
-    have := h b (by simp)
-    have := ih (fun c hc => h c (by simp [hc]))
-    simp at *
-    omega
-
-/-- the encoder's pieces for a list of 4-byte addresses are their concatenation -/
-theorem ip4_pieces (ips : List Bytes) (h : ∀ b ∈ ips, b.length = 4) :
-    piecesBytes (ips.map (fun ip => pCopyIn 4 (pIpTo4 ip))) = ips.flatten ∧
-    piecesLen (ips.map (fun ip => pCopyIn 4 (pIpTo4 ip))) = 4 * ips.length ∧
-    ∀ p ∈ ips.map (fun ip => pCopyIn 4 (pIpTo4 ip)), p.Tight := by
-  induction ips with
-  | nil => exact ⟨rfl, rfl, by simp⟩
-  | cons b bs ih =>
-    have hb := h b (by simp)
-    obtain ⟨i1, i2, i3⟩ := ih (fun c hc => h c (by simp [hc]))
-    refine ⟨?_, ?_, ?_⟩
-    · simp [piecesBytes, Piece.bytes, pCopyIn, pIpTo4_four _ hb, pFitTo_self _ _ hb] at i1 ⊢
-      exact i1
-    · simp [piecesLen, Piece.adv, pCopyIn, pIpTo4_four _ hb, pFitTo_self _ _ hb] at i2 ⊢
-      omega
-    · intro p hp
-      simp at hp
-      rcases hp with rfl | hp
-      · simp [Piece.Tight, pCopyIn]
-      · exact i3 p (by simp; exact hp)
-
-/-- the decoder's address loop reads back the concatenated addresses -/
-theorem readIPs_flatten (ips : List Bytes) (h : ∀ b ∈ ips, b.length = 4) :
-    ∀ (pre tail : Bytes) (len : Nat),
-      pReadIPs ⟨pre ++ ips.flatten ++ tail, len⟩ pre.length ips.length = .ok (ips.map V.bytes) := by
-  induction ips with
-  | nil => intro pre tail len; rfl
-  | cons b bs ih =>
-    intro pre tail len
-    have hb := h b (by simp)
-    have := ih (fun c hc => h c (by simp [hc])) (pre ++ b) tail len
-    simp only [List.length_cons, pReadIPs, List.flatten_cons]
-    rw [Slice.sliceR_ok _ _ _ (by omega) (by simp; omega)]
-    simp only [Res.bind_ok, List.length_append, hb, List.append_assoc] at this ⊢
-    rw [this]
-    simp [Slice.bytes, take_prefix 4 b _ hb]
 
 def kIGMPv3Query : KindOps := ⟨PIGMPv3Query.lenM, PIGMPv3Query.marshalM, PIGMPv3Query.unmarshal, PIGMPv3Query.zero⟩
 
@@ -844,12 +791,7 @@ def IGMPv3Query.WFv : V → Prop
   | _ => False
 instance : DecidablePred IGMPv3Query.WFv := fun v => by unfold IGMPv3Query.WFv; split <;> infer_instance
 
-theorem igmpv3q_len (ns : Nat) (h : 12 + 4 * ns < 65536) : ((12 : UInt16) + n16 ns * (4 : UInt16)).toNat = 12 + 4 * ns := by
-  simp only [UInt16.toNat_add, UInt16.toNat_mul, n16_toNat ns (by omega)]
-  have h1 : (12 : UInt16).toNat = 12 := rfl
-  have h4 : (4 : UInt16).toNat = 4 := rfl
-  rw [h1, h4]; omega
-
+/-- a well-formed IGMPv3 query (S / QRV lanes, any number of sources) round-trips -/
 theorem igmpv3query_roundtrip (v : V) (h : IGMPv3Query.WFv v) : RoundTrip kIGMPv3Query v := by
   unfold IGMPv3Query.WFv at h
   split at h
@@ -922,67 +864,6 @@ example : IGMPv3Query.WFv (.obj "p.IGMPv3Query" [.num 0x11, .num 100, .num 0xabc
     .num 5, .num 125, .num 2, .list [.bytes [10, 0, 0, 1], .bytes [10, 0, 0, 2]]]) := by decide
 
 /-! ### IGMPv3 group record and membership report (nested lists) -/
-/-- a 32-bit number value -/
-def isU32 : V → Prop
-  | .num w => w < 4294967296
-  | _ => False
-instance : DecidablePred isU32 := fun v => by unfold isU32; split <;> infer_instance
-
-theorem u32_list (xs : List V) (h : ∀ x ∈ xs, isU32 x) :
-    ∃ ws : List UInt32, xs = ws.map V.u32 ∧ xs.map (fun d => pU32 d.asNat) = ws.map (fun w => Piece.put (be32 w)) := by
-  induction xs with
-  | nil => exact ⟨[], rfl, rfl⟩
-  | cons x xs ih =>
-    obtain ⟨ws, h1, h2⟩ := ih (fun y hy => h y (by simp [hy]))
-    have hx := h x (by simp)
-    unfold isU32 at hx
-    split at hx
-    · rename_i w
-      refine ⟨n32 w :: ws, ?_, ?_⟩
-      · simp [h1, u32_n32 w hx]
-      · simp only [List.map_cons, h2]; rfl
-    · exact hx.elim
-
-theorem u32_pieces (ws : List UInt32) :
-    piecesBytes (ws.map (fun w => Piece.put (be32 w))) = (ws.map be32).flatten ∧
-    piecesLen (ws.map (fun w => Piece.put (be32 w))) = 4 * ws.length ∧
-    (∀ p ∈ ws.map (fun w => Piece.put (be32 w)), p.Tight) ∧ (ws.map be32).flatten.length = 4 * ws.length := by
-  induction ws with
-  | nil => exact ⟨rfl, rfl, by simp, rfl⟩
-  | cons w ws ih =>
-    obtain ⟨i1, i2, i3, i4⟩ := ih
-    refine ⟨?_, ?_, ?_, ?_⟩
-    · simp [piecesBytes, Piece.bytes] at i1 ⊢
-      exact i1
-    · simp [piecesLen, Piece.adv] at i2 ⊢
-      omega
-    · intro p hp
-      simp at hp
-      rcases hp with rfl | ⟨a, _, rfl⟩ <;> simp [Piece.Tight]
-    · simp only [List.map_cons, List.flatten_cons, List.length_append, be32_length, i4, List.length_cons]; omega
-
-/-- the decoder's word loop reads back the concatenated big-endian words (they must lie inside `len`) -/
-theorem readU32s_flatten (ws : List UInt32) :
-    ∀ (pre tail : Bytes) (len : Nat), pre.length + 4 * ws.length ≤ len →
-      len ≤ (pre ++ (ws.map be32).flatten ++ tail).length →
-      pReadU32s ⟨pre ++ (ws.map be32).flatten ++ tail, len⟩ pre.length ws.length = .ok (ws.map V.u32) := by
-  induction ws with
-  | nil => intro pre tail len _ _; rfl
-  | cons w ws ih =>
-    intro pre tail len h1 h2
-    simp only [List.length_cons] at h1
-    have := ih (pre ++ be32 w) tail len (by simp; omega) (by simpa using h2)
-    simp only [List.length_cons, pReadU32s, List.map_cons, List.flatten_cons]
-    unfold Slice.u32From
-    rw [Slice.fromR_ok _ _ (by simp; omega)]
-    simp only [Res.bind_ok, List.length_append, be32_length, List.append_assoc] at this ⊢
-    rw [this]
-    have : (⟨List.drop pre.length (pre ++ (be32 w ++ ((ws.map be32).flatten ++ tail))), len - pre.length⟩ : Slice).u32Here = .ok w := by
-      simp only [List.drop_left, Slice.u32Here, Slice.bytes, be32_cells, List.cons_append, List.nil_append]
-      rw [rd32_take _ _ _ _ _ _ (by omega)]
-      simp [Res.ofOption]
-    rw [this]
-    rfl
 
 def kIGMPv3GroupRecord : KindOps :=
   ⟨PIGMPv3GroupRecord.lenM, PIGMPv3GroupRecord.marshalM, PIGMPv3GroupRecord.unmarshal, PIGMPv3GroupRecord.zero⟩
@@ -1001,14 +882,7 @@ def recSize : V → Nat
   | .obj "p.IGMPv3GroupRecord" [_, .num aux, .num ns, _, _, _] => 8 + 4 * aux + 4 * ns
   | _ => 0
 
-theorem grouprec_len (aux ns : Nat) (ha : aux < 256) (h : 8 + 4 * aux + 4 * ns < 65536) :
-    (((8 : UInt16) + ((n8 aux).toUInt64).toUInt16 * (4 : UInt16)) + n16 ns * (4 : UInt16)).toNat = 8 + 4 * aux + 4 * ns := by
-  simp only [UInt16.toNat_add, UInt16.toNat_mul, UInt64.toNat_toUInt16, UInt8.toNat_toUInt64, n8_toNat _ ha,
-    n16_toNat ns (by omega)]
-  have h1 : (8 : UInt16).toNat = 8 := rfl
-  have h4 : (4 : UInt16).toNat = 4 := rfl
-  rw [h1, h4]; omega
-
+/-- a well-formed IGMPv3 group record (sources and auxiliary words) round-trips; trailing bytes are ignored -/
 theorem igmpv3grouprecord_roundtrip (v : V) (h : IGMPv3GroupRecord.WFv v) : RoundTripPrefix kIGMPv3GroupRecord v := by
   unfold IGMPv3GroupRecord.WFv at h
   split at h
@@ -1078,6 +952,7 @@ theorem igmpv3grouprecord_roundtrip (v : V) (h : IGMPv3GroupRecord.WFv v) : Roun
       simp [c1, c2, PIGMPv3GroupRecord.zero, u8_n8, u16_n16, h1, h2, hns, Slice.bytes, makeCopy_self]
   · exact h.elim
 
+/-- for a well-formed record the three size computations agree: `Len()`, the decoder's `int` size, `recSize` (≥ 8) -/
 theorem grouprec_sizes (r : V) (h : IGMPv3GroupRecord.WFv r) :
     PIGMPv3GroupRecord.trueSize r = .ok (recSize r) ∧ 8 ≤ recSize r ∧
       ∀ l, PIGMPv3GroupRecord.len r = .ok l → l.toNat = recSize r := by
@@ -1110,6 +985,8 @@ theorem grouprec_facts (r : V) (h : IGMPv3GroupRecord.WFv r) :
   obtain ⟨q1, q3, q2⟩ := grouprec_sizes r h
   exact ⟨bs, l, hb, hl', h3, q2 l hl', q1, q3, h4⟩
 
+/-- a list of well-formed group records: the encoder's pieces are the concatenation `W` of their encodings, and the
+    decoder's record loop started at the beginning of `W` reads back exactly these records -/
 theorem report_recs (rs : List V) (hwf : ∀ r ∈ rs, IGMPv3GroupRecord.WFv r) :
     ∃ W : Bytes, W.length = (rs.map recSize).sum ∧ 8 * rs.length ≤ W.length ∧
       (∃ ps ls, PIGMPv3MembershipReport.recPieces rs = .ok ps ∧ PIGMPv3MembershipReport.recLens rs = .ok ls ∧
@@ -1152,6 +1029,7 @@ theorem report_recs (rs : List V) (hwf : ∀ r ∈ rs, IGMPv3GroupRecord.WFv r) 
       rw [this]
       rfl
 
+/-- `IGMPv3MembershipReport` operations -/
 def kIGMPv3MembershipReport : KindOps := ⟨PIGMPv3MembershipReport.lenM, PIGMPv3MembershipReport.marshalM,
   PIGMPv3MembershipReport.unmarshal, PIGMPv3MembershipReport.zero⟩
 
@@ -1165,6 +1043,7 @@ def IGMPv3MembershipReport.WFv : V → Prop
 instance : DecidablePred IGMPv3MembershipReport.WFv := fun v => by
   unfold IGMPv3MembershipReport.WFv; split <;> infer_instance
 
+/-- a well-formed IGMPv3 membership report (any number of group records) round-trips -/
 theorem igmpv3membershipreport_roundtrip (v : V) (h : IGMPv3MembershipReport.WFv v) :
     RoundTrip kIGMPv3MembershipReport v := by
   unfold IGMPv3MembershipReport.WFv at h
@@ -1230,7 +1109,9 @@ example : IGMPv3MembershipReport.WFv (.obj "p.IGMPv3MembershipReport" [.num 0x22
            .obj "p.IGMPv3GroupRecord" [.num 4, .num 0, .num 0, .bytes [224, 0, 0, 10], .list [], .list []]]]) := by decide
 
 /-! ### IPv4 (container: header lanes, options, payload chosen by the protocol number) -/
+
 def kBuffer : KindOps := ⟨UBuffer.lenM, UBuffer.marshalM, UBuffer.unmarshal, UBuffer.zero⟩
+/-- `IPv4` operations at top level -/
 def kIPv4 : KindOps := ⟨PIPv4.lenM, PIPv4.marshalM, PIPv4.unmarshal, PIPv4.zero⟩
 
 /-- well-formed opaque payload: its size fits the 16-bit `Len()` -/
@@ -1265,14 +1146,17 @@ def ipv4PayloadDecode (pr : UInt8) (rest : Slice) : R V :=
   else if pr.toNat = Gen.protocol.Type_UDP then PUDP.unmarshal PIPv4.newUDP rest
   else UBuffer.unmarshal UBuffer.zero rest
 
+/-- well-formed values have the kind their predicate names -/
 theorem icmp_kind_of_wf (v : V) (h : ICMP.WFv v) : v.kind = "p.ICMP" := by
   unfold ICMP.WFv at h; split at h
   · rfl
   · exact h.elim
+/-- well-formed values have the kind their predicate names -/
 theorem udp_kind_of_wf (v : V) (h : UDP.WFv v) : v.kind = "p.UDP" := by
   unfold UDP.WFv at h; split at h
   · rfl
   · exact h.elim
+/-- well-formed values have the kind their predicate names -/
 theorem buffer_kind_of_wf (v : V) (h : Buffer.WFv v) : v.kind = "u.Buffer" := by
   unfold Buffer.WFv at h; split at h
   · rfl
@@ -1324,18 +1208,21 @@ def paySize : V → Nat
   | .obj "u.Buffer" [.bytes c] => c.length
   | _ => 0
 
+/-- `Len()` of a well-formed ICMP message is `paySize` -/
 theorem icmp_size (dat : V) (h : ICMP.WFv dat) (l : UInt16) (hl : PICMP.lenM dat = .ok (l, dat)) : l.toNat = paySize dat := by
   unfold ICMP.WFv at h
   split at h
   · simp [PICMP.lenM, PICMP.len, same] at hl
     rw [← hl, n16_toNat _ h.2.2.2]; rfl
   · exact h.elim
+/-- `Len()` of a well-formed UDP datagram is `paySize` -/
 theorem udp_size (dat : V) (h : UDP.WFv dat) (l : UInt16) (hl : PUDP.lenM dat = .ok (l, dat)) : l.toNat = paySize dat := by
   unfold UDP.WFv at h
   split at h
   · simp [PUDP.lenM, PUDP.len, same] at hl
     rw [← hl, n16_toNat _ h.2.2.2.2]; rfl
   · exact h.elim
+/-- `Len()` of a well-formed buffer is `paySize` -/
 theorem buffer_size (dat : V) (h : Buffer.WFv dat) (l : UInt16) (hl : UBuffer.lenM dat = .ok (l, dat)) : l.toNat = paySize dat := by
   unfold Buffer.WFv at h
   split at h
@@ -1343,6 +1230,7 @@ theorem buffer_size (dat : V) (h : Buffer.WFv dat) (l : UInt16) (hl : UBuffer.le
     rw [← hl, n16_toNat _ h]; rfl
   · exact h.elim
 
+/-- the size the `util.Message` dispatch reports for an admissible IPv4 payload is `paySize` -/
 theorem ipv4_payload_size (pr : Nat) (dat : V) (h : IPv4.PayloadOK pr dat) (d : Nat) (pl : UInt16)
     (hl : protoAnyLenD (d + 1) dat = .ok (pl, dat)) : pl.toNat = paySize dat := by
   rcases h with ⟨_, hw⟩ | ⟨_, hw⟩ | ⟨_, _, hw⟩
@@ -1368,24 +1256,11 @@ def IPv4.WFv : V → Prop
   | _ => False
 instance : DecidablePred IPv4.WFv := fun v => by unfold IPv4.WFv; split <;> infer_instance
 
-theorem ipv4_hdrlen (ihl : Nat) (h5 : 5 ≤ ihl) (h : ihl < 16) :
-    PIPv4.fixIHL (n8 ihl) = n8 ihl ∧ (PIPv4.hdrLen (n8 ihl)).toNat = 4 * ihl ∧ ((n8 ihl) * 4).toNat = 4 * ihl := by
-  have hn := n8_toNat ihl (by omega)
-  have h4 : (4 : UInt8).toNat = 4 := rfl
-  have hm : ((n8 ihl) * 4).toNat = 4 * ihl := by rw [UInt8.toNat_mul, hn, h4]; omega
-  refine ⟨?_, ?_, hm⟩
-  · unfold PIPv4.fixIHL
-    rw [if_neg]
-    rw [UInt8.lt_iff_toNat_lt, hn]
-    have : (5 : UInt8).toNat = 5 := rfl
-    omega
-  · unfold PIPv4.hdrLen
-    rw [UInt8.toNat_toUInt16, hm]
-
 /-- the IPv4 operations as a container at nesting depth `d + 1` sees them -/
 def kIPv4At (d : Nat) : KindOps :=
   ⟨PIPv4.lenW (protoAnyLenD (d + 1)), PIPv4.marshalW (protoAnyLenD (d + 1)) (protoAnyMarshalD (d + 1)), PIPv4.unmarshal, PIPv4.zero⟩
 
+/-- a well-formed IPv4 packet round-trips, at any nesting depth (so it can be used inside an Ethernet frame) -/
 theorem ipv4_roundtrip_at (d : Nat) (v : V) (h : IPv4.WFv v) : RoundTrip (kIPv4At d) v := by
   unfold IPv4.WFv at h
   split at h
@@ -1534,54 +1409,551 @@ example : IPv4.WFv (.obj "p.IPv4" [.num 4, .num 6, .num 10, .num 1, .num 31, .nu
     .num 0xbeef, .bytes [10, 0, 0, 1], .bytes [10, 0, 0, 2], .obj "u.Buffer" [.bytes [9, 9, 9, 9]],
     .obj "p.ICMP" [.num 8, .num 0, .num 0xf7ff, .bytes [1, 2, 3]]]) := by decide
 
+/-! ### Ethernet (container: optional 802.1Q tag, payload chosen by the ethertype) -/
+
+/-- encoded size of an admissible Ethernet payload -/
+def frameSize : V → Nat
+  | .obj "p.IPv4" [_, .num ihl, _, _, _, _, _, _, _, _, _, _, _, _, dat] => 4 * ihl + paySize dat
+  | .obj "p.ARP" _ => 28
+  | v => paySize v
+
+/-- the payload an Ethernet frame with ethertype `et` may carry so that the decoder finds it again:
+    IPv4 for 0x0800, ARP for 0x0806, an opaque buffer for any ethertype other than IPv4 / IPv6 / ARP -/
+def Ethernet.PayloadOK (et : Nat) (dat : V) : Prop :=
+  (et = Gen.protocol.IPv4_MSG ∧ IPv4.WFv dat) ∨ (et = Gen.protocol.ARP_MSG ∧ ARP.WFv dat) ∨
+    (et ≠ Gen.protocol.IPv4_MSG ∧ et ≠ Gen.protocol.IPv6_MSG ∧ et ≠ Gen.protocol.ARP_MSG ∧ Buffer.WFv dat)
+instance (et : Nat) (dat : V) : Decidable (Ethernet.PayloadOK et dat) := by unfold Ethernet.PayloadOK; infer_instance
+
+/-- the decoder's payload choice as a function of the ethertype -/
+def etherPayloadDecode (et : UInt16) (rest : Slice) : R V :=
+  if et.toNat = Gen.protocol.IPv4_MSG then PIPv4.unmarshal PIPv4.zero rest
+  else if et.toNat = Gen.protocol.IPv6_MSG then PIPv6.unmarshal PIPv6.zero rest
+  else if et.toNat = Gen.protocol.ARP_MSG then PARP.unmarshal PARP.zero rest
+  else UBuffer.unmarshal UBuffer.zero rest
+
+/-- well-formed values have the kind their predicate names -/
+theorem ipv4_kind_of_wf (v : V) (h : IPv4.WFv v) : v.kind = "p.IPv4" := by
+  unfold IPv4.WFv at h; split at h
+  · rfl
+  · exact h.elim
+/-- well-formed values have the kind their predicate names -/
+theorem arp_kind_of_wf (v : V) (h : ARP.WFv v) : v.kind = "p.ARP" := by
+  unfold ARP.WFv at h; split at h
+  · rfl
+  · exact h.elim
+
+/-- `Len()` of a well-formed IPv4 packet is `frameSize` -/
+theorem ipv4_frame_size (d : Nat) (dat : V) (h : IPv4.WFv dat) (l : UInt16)
+    (hl : PIPv4.lenW (protoAnyLenD (d + 1)) dat = .ok (l, dat)) : l.toNat = frameSize dat := by
+  unfold IPv4.WFv at h
+  split at h
+  · rename_i ver ihl dscp ecn ln ident fl fo ttl pr cs src dst ob pay
+    obtain ⟨h1, h2, h3, h4, h5, h6, h7, h8, h9, h10, h11, h12, h13, h14, h15, h16, h17⟩ := h
+    obtain ⟨hnil, pb, pl, hpl, hpm, hpbl, hpdec⟩ := ipv4_payload_facts pr h11 pay h16 d
+    have hps := ipv4_payload_size pr pay h16 d pl hpl
+    obtain ⟨hfix, hhl, hmul⟩ := ipv4_hdrlen ihl h2 h3
+    simp only [PIPv4.lenW, hfix, hnil, hpl, Res.bind_ok] at hl
+    simp at hl
+    rw [← hl.1, UInt16.toNat_add, hhl, hps]
+    simp only [frameSize]
+    omega
+  · exact h.elim
+
+/-- `Len()` of a well-formed ARP packet is `frameSize` (28) -/
+theorem arp_frame_size (dat : V) (h : ARP.WFv dat) (l : UInt16) (hl : PARP.lenM dat = .ok (l, dat)) :
+    l.toNat = frameSize dat := by
+  unfold ARP.WFv at h
+  split at h
+  · obtain ⟨h1, h2, rfl, rfl, h5⟩ := h
+    simp [PARP.lenM, PARP.len, same, arp_len] at hl
+    rw [← hl]; rfl
+  · exact h.elim
+
+/-- for a buffer `frameSize` is `paySize` -/
+theorem buffer_frame_size (dat : V) (h : Buffer.WFv dat) : frameSize dat = paySize dat := by
+  unfold Buffer.WFv at h
+  split at h
+  · rfl
+  · exact h.elim
+
+/-- what an admissible Ethernet payload provides to the container -/
+theorem ether_payload_facts (et : Nat) (het : et < 65536) (dat : V) (h : Ethernet.PayloadOK et dat) (d : Nat) :
+    dat.isNil = false ∧ ∃ pb pl, protoAnyLenD (d + 2) dat = .ok (pl, dat) ∧ protoAnyMarshalD (d + 2) dat = .ok (pb, dat) ∧
+      pb.length = pl.toNat ∧ pl.toNat = frameSize dat ∧
+      ∀ spare, etherPayloadDecode (n16 et) ⟨pb ++ spare, pb.length⟩ = .ok dat := by
+  have hn : (n16 et).toNat = et := n16_toNat _ het
+  rcases h with ⟨hp, hw⟩ | ⟨hp, hw⟩ | ⟨h4, h6, ha, hw⟩
+  · have hk := ipv4_kind_of_wf dat hw
+    obtain ⟨pb, pl, h1, h2, h3, h4⟩ := ipv4_roundtrip_at d dat hw
+    simp only [kIPv4At] at h1 h2 h4
+    refine ⟨?_, pb, pl, ?_, ?_, h3, ipv4_frame_size d dat hw pl h2, ?_⟩
+    · cases dat <;> simp_all [V.kind, V.isNil]
+    · simp only [protoAnyLenD, hk]; exact h2
+    · simp only [protoAnyMarshalD, hk]; exact h1
+    · intro spare
+      unfold etherPayloadDecode
+      rw [hn, if_pos hp]
+      exact h4 spare
+  · have hk := arp_kind_of_wf dat hw
+    obtain ⟨pb, pl, h1, h2, h3, h4⟩ := (arp_roundtrip dat hw).roundTrip
+    simp only [kARP] at h1 h2 h4
+    have hne4 : et ≠ Gen.protocol.IPv4_MSG := by rw [hp]; decide
+    have hne6 : et ≠ Gen.protocol.IPv6_MSG := by rw [hp]; decide
+    refine ⟨?_, pb, pl, ?_, ?_, h3, arp_frame_size dat hw pl h2, ?_⟩
+    · cases dat <;> simp_all [V.kind, V.isNil]
+    · simp only [protoAnyLenD, hk]; exact h2
+    · simp only [protoAnyMarshalD, hk]; exact h1
+    · intro spare
+      unfold etherPayloadDecode
+      rw [hn, if_neg hne4, if_neg hne6, if_pos hp]
+      exact h4 spare
+  · have hk := buffer_kind_of_wf dat hw
+    obtain ⟨pb, pl, h1, h2, h3, h4'⟩ := buffer_roundtrip dat hw
+    simp only [kBuffer] at h1 h2 h4'
+    refine ⟨?_, pb, pl, ?_, ?_, h3, ?_, ?_⟩
+    · cases dat <;> simp_all [V.kind, V.isNil]
+    · simp only [protoAnyLenD, hk]; exact h2
+    · simp only [protoAnyMarshalD, hk]; exact h1
+    · rw [buffer_frame_size dat hw]; exact buffer_size dat hw pl h2
+    · intro spare
+      unfold etherPayloadDecode
+      rw [hn, if_neg h4, if_neg h6, if_neg ha]
+      exact h4' spare
+
+/-- the Ethernet operations as a container at nesting depth `d + 3` sees them (`d = 13` is the top level) -/
+def kEthernetAt (d : Nat) : KindOps :=
+  ⟨PEthernet.lenW (protoAnyLenD (d + 2)), PEthernet.marshalW (protoAnyLenD (d + 2)) (protoAnyMarshalD (d + 2)),
+    PEthernet.unmarshal, PEthernet.zero⟩
+/-- `Ethernet` operations at top level -/
+def kEthernet : KindOps := ⟨PEthernet.lenM, PEthernet.marshalM, PEthernet.unmarshal, PEthernet.zero⟩
+
+/-- well-formed Ethernet frame: Delimiter 0 (not on the wire), 6-byte addresses, 16-bit ethertype, a payload the
+    ethertype announces, and either no tag (the zero VLAN value; then the ethertype itself must not be 0x8100) or an
+    802.1Q tag with TPID 0x8100, priority 3 bits, DEI 1 bit and a NON-ZERO 12-bit id; total size within 16 bits -/
+def Ethernet.WFv : V → Prop
+  | .obj "p.Ethernet" [.num del, .bytes dst, .bytes src, .obj "p.VLAN" [.num tpid, .num pcp, .num dei, .num vid], .num et, dat] =>
+    del = 0 ∧ dst.length = 6 ∧ src.length = 6 ∧ et < 65536 ∧ Ethernet.PayloadOK et dat ∧
+      ((tpid = 0 ∧ pcp = 0 ∧ dei = 0 ∧ vid = 0 ∧ et ≠ Gen.protocol.VLAN_MSG ∧ 14 + frameSize dat < 65536) ∨
+       (tpid = Gen.protocol.VLAN_MSG ∧ pcp < 8 ∧ dei < 2 ∧ 0 < vid ∧ vid < 4096 ∧ 18 + frameSize dat < 65536))
+  | _ => False
+instance : DecidablePred Ethernet.WFv := fun v => by unfold Ethernet.WFv; split <;> infer_instance
+
+/-- an untagged frame (zero VLAN value, ethertype ≠ 0x8100) with an admissible payload round-trips -/
+theorem ethernet_untagged_roundtrip (d : Nat) (dst src : Bytes) (et : Nat) (dat : V) (h2 : dst.length = 6) (h3 : src.length = 6)
+    (h4 : et < 65536) (h5 : Ethernet.PayloadOK et dat) (h6 : et ≠ Gen.protocol.VLAN_MSG) (h7 : 14 + frameSize dat < 65536) :
+    RoundTrip (kEthernetAt d) (.obj "p.Ethernet" [.num 0, .bytes dst, .bytes src, .obj "p.VLAN" [.num 0, .num 0, .num 0, .num 0],
+      .num et, dat]) := by
+  obtain ⟨hnil, pb, pl, hpl, hpm, hpbl, hps, hpdec⟩ := ether_payload_facts et h4 dat h5 d
+  obtain ⟨a0, a1, a2, a3, a4, a5, rfl⟩ := bytes_len6 dst h2
+  obtain ⟨b0, b1, b2, b3, b4, b5, rfl⟩ := bytes_len6 src h3
+  have hL : ((12 : UInt16) + 2 + pl).toNat = 14 + pb.length := by
+    rw [UInt16.toNat_add, hpbl]
+    have : ((12 : UInt16) + 2).toNat = 14 := rfl
+    rw [this]; omega
+  have hlenW : PEthernet.lenW (protoAnyLenD (d + 2)) (.obj "p.Ethernet" [.num 0, .bytes [a0, a1, a2, a3, a4, a5],
+      .bytes [b0, b1, b2, b3, b4, b5], .obj "p.VLAN" [.num 0, .num 0, .num 0, .num 0], .num et, dat])
+      = .ok ((12 : UInt16) + 2 + pl, .obj "p.Ethernet" [.num 0, .bytes [a0, a1, a2, a3, a4, a5],
+      .bytes [b0, b1, b2, b3, b4, b5], .obj "p.VLAN" [.num 0, .num 0, .num 0, .num 0], .num et, dat]) := by
+    simp [PEthernet.lenW, PVLAN.vid, hnil, hpl]
+  refine ⟨[a0, a1, a2, a3, a4, a5] ++ [b0, b1, b2, b3, b4, b5] ++ be16 (n16 et) ++ pb, (12 : UInt16) + 2 + pl, ?_⟩
+  refine ⟨?_, ?_, ?_, ?_⟩
+  · simp only [kEthernetAt, PEthernet.marshalW, hlenW, Res.bind_ok, hL, hnil, hpm, PVLAN.vid]
+    have hne : ¬ ((0 : Nat) ≠ 0) := by simp
+    simp only [hne, if_false, List.append_nil, List.cons_append, List.nil_append, Bool.false_eq_true]
+    have hpre : ∀ p ∈ [pCopy [a0, a1, a2, a3, a4, a5], pCopy [b0, b1, b2, b3, b4, b5], pU16 et], p.Tight := by
+      simp [Piece.Tight, pU16, pCopy]
+    have hplen : piecesLen [pCopy [a0, a1, a2, a3, a4, a5], pCopy [b0, b1, b2, b3, b4, b5], pU16 et] = 14 := by
+      simp [piecesLen, Piece.adv, pU16, pCopy]
+    have hpbb : piecesBytes [pCopy [a0, a1, a2, a3, a4, a5], pCopy [b0, b1, b2, b3, b4, b5], pU16 et]
+        = [a0, a1, a2, a3, a4, a5] ++ [b0, b1, b2, b3, b4, b5] ++ be16 (n16 et) := by
+      simp [piecesBytes, Piece.bytes, pU16, pCopy]
+    rw [fill_exact _ _ hpre (by rw [hplen]; omega), hplen, hpbb]
+    simp only [Res.bind_ok]
+    have hfl : ([a0, a1, a2, a3, a4, a5] ++ [b0, b1, b2, b3, b4, b5] ++ be16 (n16 et)).length = 14 := rfl
+    have hk : 14 + pb.length - 14 = pb.length := by omega
+    rw [hk]
+    conv => lhs; arg 1; arg 2; rw [← hfl]
+    rw [fillFrom_exact _ [Piece.put pb] pb.length (by simp [Piece.Tight]) (by simp [piecesLen, Piece.adv])]
+    simp [piecesBytes, Piece.bytes, piecesLen, Piece.adv, zeros]
+  · simp only [kEthernetAt, hlenW]
+  · rw [hL]; simp only [List.length_append, List.length_cons, List.length_nil, be16_length]
+  · intro spare
+    have hbl : ([a0, a1, a2, a3, a4, a5] ++ [b0, b1, b2, b3, b4, b5] ++ be16 (n16 et) ++ pb).length = 14 + pb.length := by
+      simp only [List.length_append, List.length_cons, List.length_nil, be16_length]
+    rw [hbl]
+    simp only [kEthernetAt]
+    unfold PEthernet.unmarshal
+    generalize hdata : (⟨[a0, a1, a2, a3, a4, a5] ++ [b0, b1, b2, b3, b4, b5] ++ be16 (n16 et) ++ pb ++ spare, 14 + pb.length⟩ : Slice)
+      = data
+    have c12 : 12 ≤ 14 + pb.length := by omega
+    have b12 : 2 ≤ 14 + pb.length - 12 := by omega
+    have r0 : data.sliceR 0 6 = .ok ⟨[a0, a1, a2, a3, a4, a5] ++ ([b0, b1, b2, b3, b4, b5] ++ be16 (n16 et) ++ pb ++ spare), 6⟩ := by
+      rw [← hdata]; rt_reads []
+    have r6 : data.sliceR 6 12 = .ok ⟨[b0, b1, b2, b3, b4, b5] ++ (be16 (n16 et) ++ pb ++ spare), 6⟩ := by
+      rw [← hdata]; rt_reads []
+    have r12 : data.u16From 12 = .ok (n16 et) := by rw [← hdata]; rt_reads [c12, b12]
+    have rr : data.fromR 14 = .ok ⟨pb ++ spare, pb.length⟩ := by
+      rw [← hdata]; rt_reads []
+    have rl : data.len = 14 + pb.length := by rw [← hdata]
+    have e1 : ¬ (14 + pb.length < 14) := by omega
+    have e2 : ¬ ((n16 et).toNat = Gen.protocol.VLAN_MSG) := by rw [n16_toNat _ h4]; exact h6
+    simp only [r0, r6, r12, rl, Res.bind_ok, e1, e2, if_false, rr]
+    have hdec := hpdec spare
+    unfold etherPayloadDecode at hdec
+    rw [← bind_ite, ← bind_ite, ← bind_ite, hdec]
+    simp [PEthernet.zero, PVLAN.zero, Slice.bytes, makeCopy_self, u16_n16, h4]
+
+/-- a frame with an 802.1Q tag (TPID 0x8100, non-zero VLAN id; PCP / DEI / id lanes) and an admissible payload round-trips -/
+theorem ethernet_tagged_roundtrip (d : Nat) (dst src : Bytes) (pcp dei vid et : Nat) (dat : V) (h2 : dst.length = 6)
+    (h3 : src.length = 6) (h4 : et < 65536) (h5 : Ethernet.PayloadOK et dat) (hp : pcp < 8) (hd : dei < 2) (hv0 : 0 < vid)
+    (hv : vid < 4096) (h7 : 18 + frameSize dat < 65536) :
+    RoundTrip (kEthernetAt d) (.obj "p.Ethernet" [.num 0, .bytes dst, .bytes src,
+      .obj "p.VLAN" [.num Gen.protocol.VLAN_MSG, .num pcp, .num dei, .num vid], .num et, dat]) := by
+  obtain ⟨hnil, pb, pl, hpl, hpm, hpbl, hps, hpdec⟩ := ether_payload_facts et h4 dat h5 d
+  obtain ⟨a0, a1, a2, a3, a4, a5, rfl⟩ := bytes_len6 dst h2
+  obtain ⟨b0, b1, b2, b3, b4, b5, rfl⟩ := bytes_len6 src h3
+  obtain ⟨l1, l2, l3⟩ := lane_vlan_tci (n8 pcp) (n8 dei) (n16 vid) (by rw [n8_toNat _ (by omega)]; exact hp)
+    (by rw [n8_toNat _ (by omega)]; exact hd) (by rw [n16_toNat _ (by omega)]; exact hv)
+  have hL : ((12 : UInt16) + 4 + 2 + pl).toNat = 18 + pb.length := by
+    rw [UInt16.toNat_add, hpbl]
+    have : ((12 : UInt16) + 4 + 2).toNat = 18 := rfl
+    rw [this]; omega
+  have hvne : vid ≠ 0 := by omega
+  have hlenW : PEthernet.lenW (protoAnyLenD (d + 2)) (.obj "p.Ethernet" [.num 0, .bytes [a0, a1, a2, a3, a4, a5],
+      .bytes [b0, b1, b2, b3, b4, b5], .obj "p.VLAN" [.num Gen.protocol.VLAN_MSG, .num pcp, .num dei, .num vid], .num et, dat])
+      = .ok ((12 : UInt16) + 4 + 2 + pl, .obj "p.Ethernet" [.num 0, .bytes [a0, a1, a2, a3, a4, a5],
+      .bytes [b0, b1, b2, b3, b4, b5], .obj "p.VLAN" [.num Gen.protocol.VLAN_MSG, .num pcp, .num dei, .num vid], .num et, dat]) := by
+    simp [PEthernet.lenW, PVLAN.vid, hnil, hpl, hvne]
+  refine ⟨[a0, a1, a2, a3, a4, a5] ++ [b0, b1, b2, b3, b4, b5] ++ be16 (n16 Gen.protocol.VLAN_MSG) ++
+    be16 (PVLAN.packTCI (n8 pcp) (n8 dei) (n16 vid)) ++ be16 (n16 et) ++ pb, (12 : UInt16) + 4 + 2 + pl, ?_⟩
+  refine ⟨?_, ?_, ?_, ?_⟩
+  · simp only [kEthernetAt, PEthernet.marshalW, hlenW, Res.bind_ok, hL, hnil, hpm, PVLAN.vid, PVLAN.bytes]
+    simp only [hvne, ne_eq, not_false_eq_true, if_true, List.cons_append, List.nil_append, Bool.false_eq_true, if_false]
+    have hpre : ∀ p ∈ [pCopy [a0, a1, a2, a3, a4, a5], pCopy [b0, b1, b2, b3, b4, b5],
+        pCopy (be16 (n16 Gen.protocol.VLAN_MSG) ++ be16 (PVLAN.packTCI (n8 pcp) (n8 dei) (n16 vid))), pU16 et], p.Tight := by
+      simp [Piece.Tight, pU16, pCopy]
+    have hplen : piecesLen [pCopy [a0, a1, a2, a3, a4, a5], pCopy [b0, b1, b2, b3, b4, b5],
+        pCopy (be16 (n16 Gen.protocol.VLAN_MSG) ++ be16 (PVLAN.packTCI (n8 pcp) (n8 dei) (n16 vid))), pU16 et] = 18 := by
+      simp [piecesLen, Piece.adv, pU16, pCopy]
+    have hpbb : piecesBytes [pCopy [a0, a1, a2, a3, a4, a5], pCopy [b0, b1, b2, b3, b4, b5],
+        pCopy (be16 (n16 Gen.protocol.VLAN_MSG) ++ be16 (PVLAN.packTCI (n8 pcp) (n8 dei) (n16 vid))), pU16 et]
+        = [a0, a1, a2, a3, a4, a5] ++ [b0, b1, b2, b3, b4, b5] ++ be16 (n16 Gen.protocol.VLAN_MSG) ++
+          be16 (PVLAN.packTCI (n8 pcp) (n8 dei) (n16 vid)) ++ be16 (n16 et) := by
+      simp [piecesBytes, Piece.bytes, pU16, pCopy]
+    rw [fill_exact _ _ hpre (by rw [hplen]; omega), hplen, hpbb]
+    simp only [Res.bind_ok]
+    have hfl : ([a0, a1, a2, a3, a4, a5] ++ [b0, b1, b2, b3, b4, b5] ++ be16 (n16 Gen.protocol.VLAN_MSG) ++
+          be16 (PVLAN.packTCI (n8 pcp) (n8 dei) (n16 vid)) ++ be16 (n16 et)).length = 18 := rfl
+    have hk : 18 + pb.length - 18 = pb.length := by omega
+    rw [hk]
+    conv => lhs; arg 1; arg 2; rw [← hfl]
+    rw [fillFrom_exact _ [Piece.put pb] pb.length (by simp [Piece.Tight]) (by simp [piecesLen, Piece.adv])]
+    simp [piecesBytes, Piece.bytes, piecesLen, Piece.adv, zeros]
+  · simp only [kEthernetAt, hlenW]
+  · rw [hL]; simp only [List.length_append, List.length_cons, List.length_nil, be16_length]
+  · intro spare
+    have hbl : ([a0, a1, a2, a3, a4, a5] ++ [b0, b1, b2, b3, b4, b5] ++ be16 (n16 Gen.protocol.VLAN_MSG) ++
+        be16 (PVLAN.packTCI (n8 pcp) (n8 dei) (n16 vid)) ++ be16 (n16 et) ++ pb).length = 18 + pb.length := by
+      simp only [List.length_append, List.length_cons, List.length_nil, be16_length]
+    rw [hbl]
+    simp only [kEthernetAt]
+    unfold PEthernet.unmarshal
+    generalize hdata : (⟨[a0, a1, a2, a3, a4, a5] ++ [b0, b1, b2, b3, b4, b5] ++ be16 (n16 Gen.protocol.VLAN_MSG) ++
+        be16 (PVLAN.packTCI (n8 pcp) (n8 dei) (n16 vid)) ++ be16 (n16 et) ++ pb ++ spare, 18 + pb.length⟩ : Slice) = data
+    have c12 : 12 ≤ 18 + pb.length := by omega
+    have b12 : 2 ≤ 18 + pb.length - 12 := by omega
+    have c16 : 16 ≤ 18 + pb.length := by omega
+    have b16 : 2 ≤ 18 + pb.length - 16 := by omega
+    have r0 : data.sliceR 0 6 = .ok ⟨[a0, a1, a2, a3, a4, a5] ++ ([b0, b1, b2, b3, b4, b5] ++ be16 (n16 Gen.protocol.VLAN_MSG) ++
+        be16 (PVLAN.packTCI (n8 pcp) (n8 dei) (n16 vid)) ++ be16 (n16 et) ++ pb ++ spare), 6⟩ := by
+      rw [← hdata]; rt_reads []
+    have r6 : data.sliceR 6 12 = .ok ⟨[b0, b1, b2, b3, b4, b5] ++ (be16 (n16 Gen.protocol.VLAN_MSG) ++
+        be16 (PVLAN.packTCI (n8 pcp) (n8 dei) (n16 vid)) ++ be16 (n16 et) ++ pb ++ spare), 6⟩ := by
+      rw [← hdata]; rt_reads []
+    have r12 : data.u16From 12 = .ok (n16 Gen.protocol.VLAN_MSG) := by rw [← hdata]; rt_reads [c12, b12]
+    have r12' : data.fromR 12 = .ok ⟨be16 (n16 Gen.protocol.VLAN_MSG) ++
+        be16 (PVLAN.packTCI (n8 pcp) (n8 dei) (n16 vid)) ++ (be16 (n16 et) ++ pb ++ spare), 6 + pb.length⟩ := by
+      rw [← hdata, Slice.fromR_ok _ _ (by show 12 ≤ 18 + pb.length; omega)]
+      have : 18 + pb.length - 12 = 6 + pb.length := by omega
+      simp [this]
+    have r16 : data.u16From 16 = .ok (n16 et) := by rw [← hdata]; rt_reads [c16, b16]
+    have rr : data.fromR 18 = .ok ⟨pb ++ spare, pb.length⟩ := by
+      rw [← hdata]; rt_reads []
+    have rl : data.len = 18 + pb.length := by rw [← hdata]
+    have e1 : ¬ (18 + pb.length < 14) := by omega
+    have e2 : (n16 Gen.protocol.VLAN_MSG).toNat = Gen.protocol.VLAN_MSG := rfl
+    have e3 : ¬ (18 + pb.length < 18) := by omega
+    have hvl := vlan_roundtrip (.obj "p.VLAN" [.num Gen.protocol.VLAN_MSG, .num pcp, .num dei, .num vid])
+      (by simp only [VLAN.WFv]; exact ⟨by decide, hp, hd, hv⟩)
+    obtain ⟨vbs, vl, hv1, hv2, hv3, hv4⟩ := hvl
+    simp only [kVLAN, PVLAN.marshalM, PVLAN.bytes, Res.bind_ok, same, Res.ok.injEq, Prod.mk.injEq, and_true] at hv1
+    subst hv1
+    have hvdec := hv4 (be16 (n16 et) ++ pb ++ spare) (6 + pb.length) (by simp; omega) (by simp; omega)
+    simp only [kVLAN] at hvdec
+    simp only [r0, r6, r12, r12', rl, Res.bind_ok, e1, e2, e3, if_true, if_false, hvdec, r16, Res.pure_eq, rr]
+    have hdec := hpdec spare
+    unfold etherPayloadDecode at hdec
+    rw [← bind_ite, ← bind_ite, ← bind_ite, hdec]
+    simp [PEthernet.zero, Slice.bytes, makeCopy_self, u16_n16, h4]
+
+/-- a well-formed Ethernet frame (untagged, or tagged with a non-zero VLAN id; IPv4 / ARP / opaque payload) round-trips,
+    at any nesting depth -/
+theorem ethernet_roundtrip_at (d : Nat) (v : V) (h : Ethernet.WFv v) : RoundTrip (kEthernetAt d) v := by
+  unfold Ethernet.WFv at h
+  split at h
+  · rename_i del dst src tpid pcp dei vid et dat
+    obtain ⟨rfl, h2, h3, h4, h5, h6⟩ := h
+    rcases h6 with ⟨rfl, rfl, rfl, rfl, h7, h8⟩ | ⟨rfl, hp, hd, hv0, hv, h8⟩
+    · exact ethernet_untagged_roundtrip d dst src et dat h2 h3 h4 h5 h7 h8
+    · exact ethernet_tagged_roundtrip d dst src pcp dei vid et dat h2 h3 h4 h5 hp hd hv0 hv h8
+  · exact h.elim
+
+/-- … in particular at top level (`Ethernet.Len/MarshalBinary/UnmarshalBinary`) -/
+theorem ethernet_roundtrip (v : V) (h : Ethernet.WFv v) : RoundTrip kEthernet v := ethernet_roundtrip_at 14 v h
+
+example : Ethernet.WFv (.obj "p.Ethernet" [.num 0, .bytes [1, 1, 1, 1, 1, 1], .bytes [2, 2, 2, 2, 2, 2],
+    .obj "p.VLAN" [.num 0x8100, .num 5, .num 1, .num 7], .num 0x806,
+    .obj "p.ARP" [.num 1, .num 0x800, .num 6, .num 4, .num 2, .bytes [1, 2, 3, 4, 5, 6],
+      .bytes [10, 0, 0, 1], .bytes [7, 8, 9, 10, 11, 12], .bytes [10, 0, 0, 2]]]) := by decide
+
+/-- a priority-tagged frame: 802.1Q tag with priority 5 and VLAN id 0 (legal on the wire) -/
+def prioTagged : V := .obj "p.Ethernet" [.num 0, .bytes [1, 1, 1, 1, 1, 1], .bytes [2, 2, 2, 2, 2, 2],
+  .obj "p.VLAN" [.num 0x8100, .num 5, .num 0, .num 0], .num 0x88b5, .obj "u.Buffer" [.bytes [7, 7]]]
+
+/-- DEFECT witness: the encoder writes the 802.1Q tag only when the VLAN id is non-zero, so a priority-tagged frame
+    (every field within its bit width) is encoded WITHOUT its tag and decodes to a frame whose VLAN fields are all 0:
+    the round trip loses TPID and priority.  This is why `Ethernet.WFv` has to demand a non-zero id for tagged frames. -/
+theorem ethernet_priority_tag_lost :
+    PEthernet.marshalM prioTagged = .ok ([1, 1, 1, 1, 1, 1, 2, 2, 2, 2, 2, 2, 0x88, 0xb5, 7, 7], prioTagged) ∧
+    PEthernet.unmarshal PEthernet.zero (Slice.exact [1, 1, 1, 1, 1, 1, 2, 2, 2, 2, 2, 2, 0x88, 0xb5, 7, 7]) =
+      .ok (.obj "p.Ethernet" [.num 0, .bytes [1, 1, 1, 1, 1, 1], .bytes [2, 2, 2, 2, 2, 2],
+        .obj "p.VLAN" [.num 0, .num 0, .num 0, .num 0], .num 0x88b5, .obj "u.Buffer" [.bytes [7, 7]]]) := by
+  constructor
+  · rfl
+  · rfl
+
+/-! ### IPv6 (container: version / class / flow-label lanes, payload chosen by the next-header value) -/
+
+/-- the payload an IPv6 packet whose header chain ends with next-header value `nx` may carry so that the decoder
+    finds it again: ICMPv6 (decoded as `p.ICMP`) for 58, UDP for 17, an opaque buffer otherwise -/
+def IPv6.PayloadOK (nx : Nat) (dat : V) : Prop :=
+  (nx = Gen.protocol.Type_IPv6ICMP ∧ ICMP.WFv dat) ∨ (nx = Gen.protocol.Type_UDP ∧ UDP.WFv dat) ∨
+    (nx ≠ Gen.protocol.Type_IPv6ICMP ∧ nx ≠ Gen.protocol.Type_UDP ∧ Buffer.WFv dat)
+instance (nx : Nat) (dat : V) : Decidable (IPv6.PayloadOK nx dat) := by unfold IPv6.PayloadOK; infer_instance
+
+/-- the decoder's payload choice as a function of the last next-header value -/
+def ipv6PayloadDecode (nx : UInt8) (rest : Slice) : R V :=
+  if nx.toNat = Gen.protocol.Type_IPv6ICMP then PICMP.unmarshal PIPv4.newICMP rest
+  else if nx.toNat = Gen.protocol.Type_UDP then PUDP.unmarshal PIPv4.newUDP rest
+  else UBuffer.unmarshal UBuffer.zero rest
+
+/-- what an admissible IPv6 payload provides to the container: the dispatch reaches its kind, it round-trips, its size
+    is `paySize`, and the decoder's choice for the last next-header value `nx` is its decoder -/
+theorem ipv6_payload_facts (nx : Nat) (hnx : nx < 256) (dat : V) (h : IPv6.PayloadOK nx dat) (d : Nat) :
+    dat.isNil = false ∧ ∃ pb pl, protoAnyLenD (d + 1) dat = .ok (pl, dat) ∧ protoAnyMarshalD (d + 1) dat = .ok (pb, dat) ∧
+      pb.length = pl.toNat ∧ pl.toNat = paySize dat ∧ ∀ spare, ipv6PayloadDecode (n8 nx) ⟨pb ++ spare, pb.length⟩ = .ok dat := by
+  have hn : (n8 nx).toNat = nx := n8_toNat _ hnx
+  rcases h with ⟨hp, hw⟩ | ⟨hp, hw⟩ | ⟨hp, hq, hw⟩
+  · have hk := icmp_kind_of_wf dat hw
+    obtain ⟨pb, pl, h1, h2, h3, h4⟩ := icmp_roundtrip dat hw
+    refine ⟨?_, pb, pl, ?_, ?_, h3, icmp_size dat hw pl h2, ?_⟩
+    · cases dat <;> simp_all [V.kind, V.isNil]
+    · simp only [protoAnyLenD, hk]; exact h2
+    · simp only [protoAnyMarshalD, hk]; exact h1
+    · intro spare
+      unfold ipv6PayloadDecode
+      rw [hn, if_pos hp]
+      exact h4 spare
+  · have hk := udp_kind_of_wf dat hw
+    obtain ⟨pb, pl, h1, h2, h3, h4⟩ := udp_roundtrip dat hw
+    have hne : nx ≠ Gen.protocol.Type_IPv6ICMP := by rw [hp]; decide
+    refine ⟨?_, pb, pl, ?_, ?_, h3, udp_size dat hw pl h2, ?_⟩
+    · cases dat <;> simp_all [V.kind, V.isNil]
+    · simp only [protoAnyLenD, hk]; exact h2
+    · simp only [protoAnyMarshalD, hk]; exact h1
+    · intro spare
+      unfold ipv6PayloadDecode
+      rw [hn, if_neg hne, if_pos hp]
+      exact h4 spare
+  · have hk := buffer_kind_of_wf dat hw
+    obtain ⟨pb, pl, h1, h2, h3, h4⟩ := buffer_roundtrip dat hw
+    refine ⟨?_, pb, pl, ?_, ?_, h3, buffer_size dat hw pl h2, ?_⟩
+    · cases dat <;> simp_all [V.kind, V.isNil]
+    · simp only [protoAnyLenD, hk]; exact h2
+    · simp only [protoAnyMarshalD, hk]; exact h1
+    · intro spare
+      unfold ipv6PayloadDecode
+      rw [hn, if_neg hp, if_neg hq]
+      exact h4 spare
+
+/-- the IPv6 operations as a container at nesting depth `d + 2` sees them (`d = 15` is the top level) -/
+def kIPv6At (d : Nat) : KindOps :=
+  ⟨PIPv6.lenW (protoAnyLenD (d + 1)), PIPv6.marshalW (protoAnyLenD (d + 1)) (protoAnyMarshalD (d + 1)), PIPv6.unmarshal, PIPv6.zero⟩
+/-- `IPv6` operations at top level -/
+def kIPv6 : KindOps := ⟨PIPv6.lenM, PIPv6.marshalM, PIPv6.unmarshal, PIPv6.zero⟩
+
+/-- well-formed IPv6 packet WITHOUT extension headers: version 4 bits, traffic class 8 bits, flow label 20 bits, 16-bit
+    length, 8-bit next header / hop limit, 16-byte addresses, no hop-by-hop / routing / fragment header and a next-header
+    value that does not announce one, a payload the next-header value announces, total size within 16 bits -/
+def IPv6.WFv0 : V → Prop
+  | .obj "p.IPv6" [.num ver, .num tc, .num fl, .num ln, .num nh, .num hl, .bytes src, .bytes dst, .nil, .nil, .nil, dat] =>
+    ver < 16 ∧ tc < 256 ∧ fl < 1048576 ∧ ln < 65536 ∧ nh < 256 ∧ hl < 256 ∧ src.length = 16 ∧ dst.length = 16 ∧
+      nh ≠ Gen.protocol.Type_HBH ∧ nh ≠ Gen.protocol.Type_Routing ∧ nh ≠ Gen.protocol.Type_Fragment ∧
+      IPv6.PayloadOK nh dat ∧ 40 + paySize dat < 65536
+  | _ => False
+instance : DecidablePred IPv6.WFv0 := fun v => by unfold IPv6.WFv0; split <;> infer_instance
+
+/-- a well-formed IPv6 packet without extension headers round-trips, at any nesting depth -/
+theorem ipv6_noext_roundtrip_at (d : Nat) (v : V) (h : IPv6.WFv0 v) : RoundTrip (kIPv6At d) v := by
+  unfold IPv6.WFv0 at h
+  split at h
+  · rename_i ver tc fl ln nh hl src dst dat
+    obtain ⟨h1, h2, h3, h4, h5, h6, h7, h8, h9, h10, h11, h12, h13⟩ := h
+    obtain ⟨hnil, pb, pl, hpl, hpm, hpbl, hps, hpdec⟩ := ipv6_payload_facts nh h5 dat h12 d
+    obtain ⟨s0, s1, s2, s3, s4, s5, s6, s7, s8, s9, s10, s11, s12, s13, s14, s15, rfl⟩ := bytes_len16 src h7
+    obtain ⟨d0, d1, d2, d3, d4, d5, d6, d7, d8, d9, d10, d11, d12, d13, d14, d15, rfl⟩ := bytes_len16 dst h8
+    have hnh : (n8 nh).toNat = nh := n8_toNat _ h5
+    have hL : ((40 : UInt16) + 0 + 0 + 0 + pl).toNat = 40 + pb.length := by
+      rw [UInt16.toNat_add, hpbl]
+      have : ((40 : UInt16) + 0 + 0 + 0).toNat = 40 := rfl
+      rw [this]; omega
+    have hlenW : PIPv6.lenW (protoAnyLenD (d + 1)) (.obj "p.IPv6" [.num ver, .num tc, .num fl, .num ln, .num nh, .num hl,
+        .bytes [s0, s1, s2, s3, s4, s5, s6, s7, s8, s9, s10, s11, s12, s13, s14, s15],
+        .bytes [d0, d1, d2, d3, d4, d5, d6, d7, d8, d9, d10, d11, d12, d13, d14, d15], .nil, .nil, .nil, dat])
+        = .ok ((40 : UInt16) + 0 + 0 + 0 + pl, .obj "p.IPv6" [.num ver, .num tc, .num fl, .num ln, .num nh, .num hl,
+        .bytes [s0, s1, s2, s3, s4, s5, s6, s7, s8, s9, s10, s11, s12, s13, s14, s15],
+        .bytes [d0, d1, d2, d3, d4, d5, d6, d7, d8, d9, d10, d11, d12, d13, d14, d15], .nil, .nil, .nil, dat]) := by
+      simp [PIPv6.lenW, PIPv6.optLen, V.isNil, hpl]
+    obtain ⟨l1, l2, l3⟩ := lane_ipv6_version_class_flow (n8 ver) (n8 tc) (n32 fl) (by rw [n8_toNat _ (by omega)]; exact h1)
+      (by rw [n32_toNat _ (by omega)]; exact h3)
+    have l3' : PIPv6.unpackFlow (mk32 (PIPv6.packB0 (n8 ver) (n8 tc)) (PIPv6.packB1 (n8 tc) (n32 fl))
+        (hi16 (PIPv6.packLo (n32 fl))) (lo16 (PIPv6.packLo (n32 fl)))) = n32 fl := l3 _ (rd32_cons _ _ _ _ [])
+    refine ⟨[PIPv6.packB0 (n8 ver) (n8 tc), PIPv6.packB1 (n8 tc) (n32 fl)] ++ be16 (PIPv6.packLo (n32 fl)) ++ be16 (n16 ln) ++
+      [n8 nh, n8 hl] ++ [s0, s1, s2, s3, s4, s5, s6, s7, s8, s9, s10, s11, s12, s13, s14, s15] ++
+      [d0, d1, d2, d3, d4, d5, d6, d7, d8, d9, d10, d11, d12, d13, d14, d15] ++ pb, (40 : UInt16) + 0 + 0 + 0 + pl, ?_⟩
+    refine ⟨?_, ?_, ?_, ?_⟩
+    · simp only [kIPv6At, PIPv6.marshalW, hlenW, Res.bind_ok, hL, hnil, hpm]
+      have hch : PIPv6.extChain V.nil V.nil V.nil ((40 + pb.length) / 8 + 2) (n8 nh) = .ok [] := by
+        rw [show (40 + pb.length) / 8 + 2 = ((40 + pb.length) / 8 + 1) + 1 from rfl]
+        simp only [PIPv6.extChain, hnh, h9, h10, h11, if_false]
+      have hpre : ∀ p ∈ [Piece.put [PIPv6.packB0 (n8 ver) (n8 tc)], Piece.put [PIPv6.packB1 (n8 tc) (n32 fl)],
+              Piece.put (be16 (PIPv6.packLo (n32 fl))), pU16 ln, pU8 nh, pU8 hl,
+              pCopyAdv [s0, s1, s2, s3, s4, s5, s6, s7, s8, s9, s10, s11, s12, s13, s14, s15] 16,
+              pCopyAdv [d0, d1, d2, d3, d4, d5, d6, d7, d8, d9, d10, d11, d12, d13, d14, d15] 16], p.Tight := by
+        simp [Piece.Tight, pU8, pU16, pCopyAdv]
+      have hplen : piecesLen [Piece.put [PIPv6.packB0 (n8 ver) (n8 tc)], Piece.put [PIPv6.packB1 (n8 tc) (n32 fl)],
+              Piece.put (be16 (PIPv6.packLo (n32 fl))), pU16 ln, pU8 nh, pU8 hl,
+              pCopyAdv [s0, s1, s2, s3, s4, s5, s6, s7, s8, s9, s10, s11, s12, s13, s14, s15] 16,
+              pCopyAdv [d0, d1, d2, d3, d4, d5, d6, d7, d8, d9, d10, d11, d12, d13, d14, d15] 16] = 40 := by
+        simp [piecesLen, Piece.adv, pU8, pU16, pCopyAdv]
+      have hpbb : piecesBytes [Piece.put [PIPv6.packB0 (n8 ver) (n8 tc)], Piece.put [PIPv6.packB1 (n8 tc) (n32 fl)],
+              Piece.put (be16 (PIPv6.packLo (n32 fl))), pU16 ln, pU8 nh, pU8 hl,
+              pCopyAdv [s0, s1, s2, s3, s4, s5, s6, s7, s8, s9, s10, s11, s12, s13, s14, s15] 16,
+              pCopyAdv [d0, d1, d2, d3, d4, d5, d6, d7, d8, d9, d10, d11, d12, d13, d14, d15] 16] =
+          [PIPv6.packB0 (n8 ver) (n8 tc), PIPv6.packB1 (n8 tc) (n32 fl)] ++ be16 (PIPv6.packLo (n32 fl)) ++ be16 (n16 ln) ++
+          [n8 nh, n8 hl] ++ [s0, s1, s2, s3, s4, s5, s6, s7, s8, s9, s10, s11, s12, s13, s14, s15] ++
+          [d0, d1, d2, d3, d4, d5, d6, d7, d8, d9, d10, d11, d12, d13, d14, d15] := by
+        simp [piecesBytes, Piece.bytes, pU8, pU16, pCopyAdv, zeros]
+      obtain ⟨o, ho⟩ := fill_ok_le (40 + pb.length) _ hpre (by rw [hplen]; omega)
+      rw [ho, hch]
+      simp only [Res.bind_ok, List.map_nil, List.append_nil, Bool.false_eq_true, if_false]
+      have hpre2 : ∀ p ∈ [Piece.put [PIPv6.packB0 (n8 ver) (n8 tc)], Piece.put [PIPv6.packB1 (n8 tc) (n32 fl)],
+              Piece.put (be16 (PIPv6.packLo (n32 fl))), pU16 ln, pU8 nh, pU8 hl,
+              pCopyAdv [s0, s1, s2, s3, s4, s5, s6, s7, s8, s9, s10, s11, s12, s13, s14, s15] 16,
+              pCopyAdv [d0, d1, d2, d3, d4, d5, d6, d7, d8, d9, d10, d11, d12, d13, d14, d15] 16] ++ [pCopy []], p.Tight := by
+        simp [Piece.Tight, pU8, pU16, pCopyAdv, pCopy]
+      have hplen2 : piecesLen ([Piece.put [PIPv6.packB0 (n8 ver) (n8 tc)], Piece.put [PIPv6.packB1 (n8 tc) (n32 fl)],
+              Piece.put (be16 (PIPv6.packLo (n32 fl))), pU16 ln, pU8 nh, pU8 hl,
+              pCopyAdv [s0, s1, s2, s3, s4, s5, s6, s7, s8, s9, s10, s11, s12, s13, s14, s15] 16,
+              pCopyAdv [d0, d1, d2, d3, d4, d5, d6, d7, d8, d9, d10, d11, d12, d13, d14, d15] 16] ++ [pCopy []]) = 40 := by
+        simp [piecesLen, Piece.adv, pU8, pU16, pCopyAdv, pCopy]
+      have hpbb2 : piecesBytes ([Piece.put [PIPv6.packB0 (n8 ver) (n8 tc)], Piece.put [PIPv6.packB1 (n8 tc) (n32 fl)],
+              Piece.put (be16 (PIPv6.packLo (n32 fl))), pU16 ln, pU8 nh, pU8 hl,
+              pCopyAdv [s0, s1, s2, s3, s4, s5, s6, s7, s8, s9, s10, s11, s12, s13, s14, s15] 16,
+              pCopyAdv [d0, d1, d2, d3, d4, d5, d6, d7, d8, d9, d10, d11, d12, d13, d14, d15] 16] ++ [pCopy []]) =
+          [PIPv6.packB0 (n8 ver) (n8 tc), PIPv6.packB1 (n8 tc) (n32 fl)] ++ be16 (PIPv6.packLo (n32 fl)) ++ be16 (n16 ln) ++
+          [n8 nh, n8 hl] ++ [s0, s1, s2, s3, s4, s5, s6, s7, s8, s9, s10, s11, s12, s13, s14, s15] ++
+          [d0, d1, d2, d3, d4, d5, d6, d7, d8, d9, d10, d11, d12, d13, d14, d15] := by
+        simp [piecesBytes, Piece.bytes, pU8, pU16, pCopyAdv, pCopy, zeros]
+      rw [fill_exact _ _ hpre2 (by rw [hplen2]; omega), hplen2, hpbb2]
+      simp only [Res.bind_ok]
+      have hfl : ([PIPv6.packB0 (n8 ver) (n8 tc), PIPv6.packB1 (n8 tc) (n32 fl)] ++ be16 (PIPv6.packLo (n32 fl)) ++ be16 (n16 ln) ++
+          [n8 nh, n8 hl] ++ [s0, s1, s2, s3, s4, s5, s6, s7, s8, s9, s10, s11, s12, s13, s14, s15] ++
+          [d0, d1, d2, d3, d4, d5, d6, d7, d8, d9, d10, d11, d12, d13, d14, d15]).length = 40 := rfl
+      have hk : 40 + pb.length - 40 = pb.length := by omega
+      rw [hk]
+      conv => lhs; arg 1; arg 2; rw [← hfl]
+      rw [fillFrom_exact _ [pCopy pb] pb.length (by simp [Piece.Tight, pCopy]) (by simp [piecesLen, Piece.adv, pCopy])]
+      simp [piecesBytes, Piece.bytes, piecesLen, Piece.adv, pCopy, zeros]
+    · simp only [kIPv6At, hlenW]
+    · rw [hL]; simp only [List.length_append, List.length_cons, List.length_nil, be16_length]
+    · intro spare
+      have hbl : ([PIPv6.packB0 (n8 ver) (n8 tc), PIPv6.packB1 (n8 tc) (n32 fl)] ++ be16 (PIPv6.packLo (n32 fl)) ++ be16 (n16 ln) ++
+          [n8 nh, n8 hl] ++ [s0, s1, s2, s3, s4, s5, s6, s7, s8, s9, s10, s11, s12, s13, s14, s15] ++
+          [d0, d1, d2, d3, d4, d5, d6, d7, d8, d9, d10, d11, d12, d13, d14, d15] ++ pb).length = 40 + pb.length := by
+        simp only [List.length_append, List.length_cons, List.length_nil, be16_length]
+      rw [hbl]
+      simp only [kIPv6At]
+      unfold PIPv6.unmarshal
+      generalize hdata : (⟨[PIPv6.packB0 (n8 ver) (n8 tc), PIPv6.packB1 (n8 tc) (n32 fl)] ++ be16 (PIPv6.packLo (n32 fl)) ++
+          be16 (n16 ln) ++ [n8 nh, n8 hl] ++ [s0, s1, s2, s3, s4, s5, s6, s7, s8, s9, s10, s11, s12, s13, s14, s15] ++
+          [d0, d1, d2, d3, d4, d5, d6, d7, d8, d9, d10, d11, d12, d13, d14, d15] ++ pb ++ spare, 40 + pb.length⟩ : Slice) = data
+      have a0 : 0 < 40 + pb.length := by omega
+      have a1 : 1 < 40 + pb.length := by omega
+      have a6 : 6 < 40 + pb.length := by omega
+      have a7 : 7 < 40 + pb.length := by omega
+      have c4 : 4 ≤ 40 + pb.length := by omega
+      have b4 : 2 ≤ 40 + pb.length - 4 := by omega
+      have r0 : data.byteAt 0 = .ok (PIPv6.packB0 (n8 ver) (n8 tc)) := by rw [← hdata]; rt_reads [a0]
+      have r1 : data.byteAt 1 = .ok (PIPv6.packB1 (n8 tc) (n32 fl)) := by rw [← hdata]; rt_reads [a1]
+      have rw4 : data.u32In 0 4 = .ok (mk32 (PIPv6.packB0 (n8 ver) (n8 tc)) (PIPv6.packB1 (n8 tc) (n32 fl))
+          (hi16 (PIPv6.packLo (n32 fl))) (lo16 (PIPv6.packLo (n32 fl)))) := by rw [← hdata]; rt_reads []
+      have r4 : data.u16From 4 = .ok (n16 ln) := by rw [← hdata]; rt_reads [c4, b4]
+      have r6 : data.byteAt 6 = .ok (n8 nh) := by rw [← hdata]; rt_reads [a6]
+      have r7 : data.byteAt 7 = .ok (n8 hl) := by rw [← hdata]; rt_reads [a7]
+      have r8 : data.sliceR 8 24 = .ok ⟨[s0, s1, s2, s3, s4, s5, s6, s7, s8, s9, s10, s11, s12, s13, s14, s15] ++
+          ([d0, d1, d2, d3, d4, d5, d6, d7, d8, d9, d10, d11, d12, d13, d14, d15] ++ pb ++ spare), 16⟩ := by
+        rw [← hdata]; rt_reads []
+      have r24 : data.sliceR 24 40 = .ok ⟨[d0, d1, d2, d3, d4, d5, d6, d7, d8, d9, d10, d11, d12, d13, d14, d15] ++
+          (pb ++ spare), 16⟩ := by
+        rw [← hdata]; rt_reads []
+      have rr : data.fromR 40 = .ok ⟨pb ++ spare, pb.length⟩ := by rw [← hdata]; rt_reads []
+      have rl : data.len = 40 + pb.length := by rw [← hdata]
+      have e1 : ¬ (40 + pb.length < 40) := by omega
+      have hx : PIPv6.xloop data (40 + pb.length + 4) { n := 40, nxt := n8 nh, hbh := .nil, rt := .nil, fr := .nil }
+          = .ok { n := 40, nxt := n8 nh, hbh := .nil, rt := .nil, fr := .nil } := by
+        rw [show 40 + pb.length + 4 = (40 + pb.length + 3) + 1 from rfl]
+        simp only [PIPv6.xloop, PIPv6.xstep, hnh, h9, h10, h11, if_false]
+      simp only [r0, r1, rw4, r4, r6, r7, r8, r24, rl, Res.bind_ok, e1, if_false, PIPv6.zero, hx, rr]
+      have hdec := hpdec spare
+      unfold ipv6PayloadDecode at hdec
+      rw [← bind_ite, ← bind_ite, hdec]
+      simp [Slice.bytes, makeCopy_self, l1, l2, l3', u8_n8, u16_n16, u32_n32, h2, h4, h5, h6, (by omega : ver < 256),
+        (by omega : fl < 4294967296)]
+  · exact h.elim
+
+/-- a well-formed IPv6 packet without extension headers (version / class / flow-label lanes, addresses, ICMPv6 / UDP /
+    opaque payload) round-trips.
+    PARTIAL with respect to the full statement (any chain of hop-by-hop / routing / fragment headers): the headers
+    themselves round-trip (`hopbyhop_roundtrip`, `routing_roundtrip`, `fragment_roundtrip`) and the decoder follows the
+    chain (`ipv6_demux`), but the composition encoder-walk / decoder-walk is not proved here. -/
+theorem ipv6_noext_roundtrip_partial (v : V) (h : IPv6.WFv0 v) : RoundTrip kIPv6 v := ipv6_noext_roundtrip_at 15 v h
+
+example : IPv6.WFv0 (.obj "p.IPv6" [.num 6, .num 0xa5, .num 0xfedcb, .num 11, .num 17, .num 64,
+    .bytes [0x20, 1, 0xd, 0xb8, 0, 0, 0, 0, 0, 0, 0, 0, 0, 0, 0, 1], .bytes [0x20, 1, 0xd, 0xb8, 0, 0, 0, 0, 0, 0, 0, 0, 0, 0, 0, 2],
+    .nil, .nil, .nil, .obj "p.UDP" [.num 68, .num 67, .num 11, .num 0, .bytes [1, 2, 3]]]) := by decide
+
+
 /-! ## 3. Demux theorems -/
 
-theorem ubuffer_kind (r : V) (d : Slice) (v : V) (h : UBuffer.unmarshal r d = .ok v) : v.kind = "u.Buffer" := by
-  unfold UBuffer.unmarshal at h; cases h; rfl
-
-theorem icmp_kind (r : V) (d : Slice) (v : V) (h : PICMP.unmarshal r d = .ok v) : v.kind = "p.ICMP" := by
-  unfold PICMP.unmarshal at h
-  split at h
-  · cases h
-  · obtain ⟨_, _, h⟩ := bind_ok_inv _ _ _ h
-    obtain ⟨_, _, h⟩ := bind_ok_inv _ _ _ h
-    obtain ⟨_, _, h⟩ := bind_ok_inv _ _ _ h
-    obtain ⟨_, _, h⟩ := bind_ok_inv _ _ _ h
-    cases h; rfl
-
-theorem udp_kind (r : V) (d : Slice) (v : V) (h : PUDP.unmarshal r d = .ok v) : v.kind = "p.UDP" := by
-  unfold PUDP.unmarshal at h
-  split at h
-  · cases h
-  · obtain ⟨_, _, h⟩ := bind_ok_inv _ _ _ h
-    obtain ⟨_, _, h⟩ := bind_ok_inv _ _ _ h
-    obtain ⟨_, _, h⟩ := bind_ok_inv _ _ _ h
-    obtain ⟨_, _, h⟩ := bind_ok_inv _ _ _ h
-    obtain ⟨_, _, h⟩ := bind_ok_inv _ _ _ h
-    cases h; rfl
-
-theorem arp_kind (r : V) (d : Slice) (v : V) (h : PARP.unmarshal r d = .ok v) : v.kind = "p.ARP" := by
-  unfold PARP.unmarshal at h
-  split at h
-  · cases h
-  · obtain ⟨_, _, h⟩ := bind_ok_inv _ _ _ h
-    obtain ⟨_, _, h⟩ := bind_ok_inv _ _ _ h
-    obtain ⟨_, _, h⟩ := bind_ok_inv _ _ _ h
-    obtain ⟨_, _, h⟩ := bind_ok_inv _ _ _ h
-    obtain ⟨_, _, h⟩ := bind_ok_inv _ _ _ h
-    simp only at h
-    split at h
-    · cases h
-    · obtain ⟨_, _, h⟩ := bind_ok_inv _ _ _ h
-      obtain ⟨_, _, h⟩ := bind_ok_inv _ _ _ h
-      obtain ⟨_, _, h⟩ := bind_ok_inv _ _ _ h
-      obtain ⟨_, _, h⟩ := bind_ok_inv _ _ _ h
-      cases h; rfl
 
 /-- the payload kind the IPv4 decoder must choose for protocol number `pr` -/
 def ipv4PayloadKind (pr : UInt8) : String :=
   if pr.toNat = Gen.protocol.Type_ICMP then "p.ICMP" else if pr.toNat = Gen.protocol.Type_UDP then "p.UDP" else "u.Buffer"
 
+/-- IPv4 demux: whenever `IPv4.UnmarshalBinary` succeeds, the decoded `Protocol` field is byte 9 of the packet, the
+    payload was decoded from `data[4·IHL:]` (IHL = low nibble of byte 0), and its kind is the one the protocol number
+    selects — `p.ICMP` for 1, `p.UDP` for 17, `u.Buffer` (the raw rest) for anything else -/
 theorem ipv4_demux (recv : V) (data : Slice) (v : V) (h : PIPv4.unmarshal recv data = .ok v) :
     ∃ pr b0 rest f0 f1 f2 f3 f4 f5 f6 f7 f8 f10 f11 f12 f13 dat,
       data.byteAt 9 = .ok pr ∧ data.byteAt 0 = .ok b0 ∧ data.fromR ((PIPv4.unpackIHL b0) * 4).toNat = .ok rest ∧
@@ -1637,6 +2009,7 @@ theorem ipv4_demux (recv : V) (data : Slice) (v : V) (h : PIPv4.unmarshal recv d
           · intro _ hn; exact absurd hn hq
           · intro _ _; unfold UBuffer.unmarshal at hdat; cases hdat; rfl
 
+/-- a successfully decoded IPv4 packet is a `p.IPv4` -/
 theorem ipv4_kind (r : V) (d : Slice) (v : V) (h : PIPv4.unmarshal r d = .ok v) : v.kind = "p.IPv4" := by
   obtain ⟨_, _, _, _, _, _, _, _, _, _, _, _, _, _, _, _, _, _, _, _, hv, _⟩ := ipv4_demux r d v h
   rw [hv]; rfl
@@ -1664,6 +2037,7 @@ inductive Chain (data : Slice) : Nat → UInt8 → Nat → UInt8 → Prop
       PFragment.nextHeader h = .ok nx → PFragment.len h = .ok l → Chain data (n + l.toNat) nx n' last →
       Chain data n nxt n' last
 
+/-- the decoder's extension-header loop follows the next-header chain (`Chain`) from its start state to its final state -/
 theorem xloop_chain (data : Slice) : ∀ (fuel : Nat) (s t : PIPv6.XSt), PIPv6.xloop data fuel s = .ok t →
     Chain data s.n s.nxt t.n t.nxt := by
   intro fuel
@@ -1731,6 +2105,10 @@ theorem xloop_chain (data : Slice) : ∀ (fuel : Nat) (s t : PIPv6.XSt), PIPv6.x
     · cases h
     · cases h
 
+/-- IPv6 demux: whenever `IPv6.UnmarshalBinary` succeeds, the decoded `NextHeader` field is byte 6, the extension
+    headers were followed from offset 40 along the next-header chain (`Chain`: hop-by-hop 0, routing 43, fragment 44) to
+    an offset `n'` and a last value `last`, the payload was decoded from `data[n':]`, and its kind is the one `last`
+    selects — `p.ICMP` for 58 (ICMPv6), `p.UDP` for 17, `u.Buffer` (the raw rest) for anything else -/
 theorem ipv6_demux (recv : V) (data : Slice) (v : V) (h : PIPv6.unmarshal recv data = .ok v) :
     ∃ nh n' last rest f0 f1 f2 f3 f5 f6 f7 f8 f9 f10 dat,
       data.byteAt 6 = .ok nh ∧ Chain data 40 nh n' last ∧ data.fromR n' = .ok rest ∧
@@ -1783,6 +2161,7 @@ theorem ipv6_demux (recv : V) (data : Slice) (v : V) (h : PIPv6.unmarshal recv d
         · intro _ hn; exact absurd hn hq
         · intro _ _; unfold UBuffer.unmarshal at hdat; cases hdat; rfl
 
+/-- a successfully decoded IPv6 packet is a `p.IPv6` -/
 theorem ipv6_kind (r : V) (d : Slice) (v : V) (h : PIPv6.unmarshal r d = .ok v) : v.kind = "p.IPv6" := by
   obtain ⟨_, _, _, _, _, _, _, _, _, _, _, _, _, _, _, _, _, _, hv, _⟩ := ipv6_demux r d v h
   rw [hv]; rfl
@@ -1868,6 +2247,11 @@ theorem eth_tail (data : Slice) (f0 f1 f2 vlan : V) (et : UInt16) (n : Nat) (v :
         · intro _ _ hn; exact absurd hn ha
         · intro _ _ _; unfold UBuffer.unmarshal at hdat; cases hdat; rfl
 
+/-- Ethernet demux: whenever `Ethernet.UnmarshalBinary` succeeds, the decoded `Ethertype` is the one found at offset 12,
+    or at offset 16 behind an 802.1Q tag (TPID 0x8100 at offset 12; then the `VLANID` field is that tag decoded, otherwise
+    it is the zero VLAN), the payload was decoded from the bytes after the ethertype (offset 14 / 18), and its kind is the
+    one the ethertype selects — `p.IPv4` for 0x0800, `p.IPv6` for 0x86dd, `p.ARP` for 0x0806, `u.Buffer` (the raw rest)
+    for anything else -/
 theorem ethernet_demux (recv : V) (data : Slice) (v : V) (h : PEthernet.unmarshal recv data = .ok v) :
     ∃ et n rest f0 f1 f2 vlan dat,
       etherTypeAt data = .ok (et, n) ∧ data.fromR n = .ok rest ∧
